@@ -105,6 +105,11 @@ def _run_tlc_once(module_path, cfg_path=None, *, workers="auto", dump=None, simu
     # explicit heap: the JVM default (a quarter of RAM per process) invites the OOM killer when several TLC runs overlap;
     # TLC keeps its fingerprint set and state queue on disk, so a moderate heap suffices
     jopts.append("-Xmx" + (heap or os.environ.get("VERIF_TLC_HEAP", "6g")))
+    # recursive operators over sequences of a hundred elements and more (a 130-byte name in MC_PSObj) need more than the
+    # default thread stack while the JVM still interprets the evaluator: a StackOverflowError that came and went with
+    # the load of the machine was traced to this
+    if not any(o.startswith("-Xss") for o in jopts):
+        jopts.append("-Xss" + os.environ.get("VERIF_TLC_STACK", "64m"))
     if dfs:
         jopts.append("-Dtlc2.tool.queue.IStateQueue=StateDeque")
     cmd = ["java"] + jopts + ["-cp", JAR + ":" + DEPS, "tlc2.TLC",
